@@ -206,6 +206,10 @@ func c09VM(rc *sim.RunCtx, shapeIdx int, pooledAll bool, pl *c09Placement) {
 	}
 
 	s := sim.NewSched(t)
+	if pl == nil && t.Bool(1, 40) {
+		// the pool locks may be contended for real in this run (see Sched.Contend)
+		s.Contend = true
+	}
 	pool := &sim.SimPool{T: t}
 	if pl != nil {
 		pool.Always = 2
@@ -338,6 +342,14 @@ func c09VM(rc *sim.RunCtx, shapeIdx int, pooledAll bool, pl *c09Placement) {
 		return
 	}
 	rc.Steps = s.TotalLoops()
+	if s.Contend && s.Contended > 0 {
+		rc.Fault("pool-lock-contended")
+		if s.Degraded() {
+			// the contender waited for the lock, as it should: from then on the interleaving was not the tape's
+			rc.Discard = "contended-pool-lock-waited-for"
+			return
+		}
+	}
 	if s.Degraded() {
 		rc.Degraded = true
 		rc.Probe("degraded-schedule(un-modelled blocking met)")
